@@ -64,6 +64,9 @@ def placeChars : List Char → BoardAcc → Option BoardAcc
 
 def strContains (s : String) (c : Char) : Bool := s.toList.contains c
 
+/-- the en-passant field: `-` or a square name (`none` here = the Rust code panics) -/
+def parseEp (epStr : String) : Option Nat := if epStr != "-" then squareFromString epStr else some SQNONE
+
 def parseFen (input : String) : Res Game :=
   let fen := input.trimAscii.toString
   let toks := fen.splitOn " "
@@ -81,8 +84,7 @@ def parseFen (input : String) : Res Game :=
         let castling := (if strContains castStr 'K' then 1 else 0) + (if strContains castStr 'Q' then 2 else 0)
                       + (if strContains castStr 'k' then 4 else 0) + (if strContains castStr 'q' then 8 else 0)
         let (epStr, rest) := match rest with | [] => ("-", []) | c :: r => (c, r)
-        let epR : Option Nat := if epStr != "-" then squareFromString epStr else some SQNONE
-        match epR with
+        match parseEp epStr with
         | none => .panic
         | some ep =>
           let (halfR, rest) : Option Nat × List String := match rest with
